@@ -35,6 +35,11 @@ theorem s16_n8f32 (v : Nat) (hv : v < 256) : QuantBits.s16 (n8f32 v) = some (s16
   rw [chkS16Val_sound _ _ (allRange_sound _ 3 0 256 h v (by omega) (by omega))]
   rfl
 
+/-- `n8::f32(v)` is a bit pattern -/
+theorem n8f32_lt (v : Nat) (hv : v < 256) : n8f32 v < 2 ^ 32 := by
+  have h : allRange (fun v => decide (n8f32 v < 2 ^ 32)) 3 0 256 = true := by decide +kernel
+  exact of_decide_eq_true (allRange_sound _ 3 0 256 h v (by omega) (by omega))
+
 /-- the `f32` defaults are the images of the integer defaults: `n8::f32(255) = n16::f32(65535) = 1.0`,
 `n8::f32(0) = n16::f32(0) = 0.0` -/
 theorem norm_images : n8f32 255 = CF32.one ∧ n16f32 65535 = CF32.one ∧ n8f32 0 = 0 ∧ n16f32 0 = 0 := by
